@@ -1,9 +1,14 @@
 """Facts for C02 (reply bookkeeping of the serving side of JSONRPCConnection).
 
-Behavioural normal forms probed on the *current* tree: what is added to the running size per
-batch entry, the separator/bracket lengths of `batch_message_from_parts`, the boundary behaviour
-of `_send_result` (at the limit: kept, one byte over: replaced by an error with the same id,
-limit 0: unlimited), and fingerprints of every modelled function."""
+Behavioural normal forms probed on the *current* tree by running the public entry points
+(`JSONRPCConnection.receive_message`, `Request.send_result`, `protocol.response_message`,
+`protocol.batch_message_from_parts`) - no private name is looked up, nothing is read from the
+AST: what is added to the running size per batch entry, whether the error entries of invalid
+members are accounted, whether an entry after an overflowing one is still replaced, the
+separator/bracket lengths of a batch message, the boundary behaviour of a single response (at
+the limit: kept, one byte over: replaced by an error with the same id, limit 0: unlimited).
+Plus AST fingerprints of the modelled functions (only used to deepen the search after a change;
+a function that cannot be found is `missing`, never an error)."""
 import asyncio
 import json
 
@@ -16,7 +21,10 @@ FUNCS = {
         'JSONRPCConnection.__init__', 'JSONRPC._process_request', 'JSONRPC._error',
         'JSONRPC.response_message', 'JSONRPC.batch_message_from_parts', 'JSONRPC.message_to_item',
         'Request.send_result'],
-    'aiorpcx/session.py': ['RPCSession._throttled_request', 'RPCSession._process_messages_loop'],
+    'aiorpcx/session.py': ['RPCSession._throttled_request', 'RPCSession._process_messages_loop',
+                           'SessionBase._send_message'],
+    'aiorpcx/rawsocket.py': ['RSTransport.write', 'RSTransport.pause_writing',
+                             'RSTransport.resume_writing'],
 }
 
 
@@ -97,6 +105,56 @@ def extract(repo):
                 all(e.get('error') is not None for e in out)
         except Exception:   # noqa
             facts['batch_replaced_keeps_ids'] = False
+
+        # ---- what the running size does not contain
+        def batch_of(maxsize, members, results):
+            c = jr.JSONRPCConnection(proto)
+            c.max_response_size = maxsize
+            items = c.receive_message(json.dumps(members).encode())
+            out = None
+            for it, r in zip([i for i in items if isinstance(i, jr.Request)], results):
+                out = it.send_result(r)
+            return json.loads(out) if out else []
+        inc = facts['size_increment']
+        req = lambda i: {'jsonrpc': '2.0', 'method': 'm', 'id': i}   # noqa
+        # an invalid member next to a request whose response fits exactly: kept <=> the error
+        # entry of the invalid member is not accounted
+        try:
+            out = batch_of(L1 + max(inc, 0), [5, req(1)], [r1])
+            kept = any(isinstance(e, dict) and e.get('result') == r1 for e in out)
+            facts['invalid_members_accounted'] = not kept
+        except Exception:   # noqa
+            facts['invalid_members_accounted'] = None
+        # a response that does not fit followed by one that would fit on its own: replaced too
+        # <=> the running size keeps the length of what was replaced
+        try:
+            big, small = 'w' * 100, 'v'
+            Ls = len(proto.response_message(small, 2))
+            out = batch_of(Ls + max(inc, 0) + 5, [req(1), req(2)], [big, small])
+            facts['overflow_sticky'] = len(out) == 2 and all(
+                isinstance(e, dict) and e.get('error') is not None for e in out) and \
+                [e.get('id') for e in out] == [1, 2]
+        except Exception:   # noqa
+            facts['overflow_sticky'] = None
+        # ---- request batch or response batch?  every two-member list over {request,
+        # response-looking}: handled as a request batch <=> a Request item comes back, or the
+        # ProtocolError raised carries a batch (a JSON list) as the message for the peer
+        def as_request_batch(flags):
+            members = [({'jsonrpc': '2.0', 'result': k, 'id': 90 + k} if f else req(k + 1))
+                       for k, f in enumerate(flags)]
+            c = jr.JSONRPCConnection(proto)
+            try:
+                items = c.receive_message(json.dumps(members).encode())
+                return any(isinstance(i, jr.Request) for i in items)
+            except jr.ProtocolError as e:
+                try:
+                    return isinstance(json.loads(e.error_message), list)
+                except Exception:   # noqa
+                    return False
+            except Exception:   # noqa
+                return False
+        facts['dispatch_table'] = [[a, b, as_request_batch((a, b))]
+                                   for a in (False, True) for b in (False, True)]
     finally:
         asyncio.set_event_loop(None)
         loop.close()
@@ -106,6 +164,10 @@ def extract(repo):
 
 def _b(x):
     return 'true' if x else 'false'
+
+
+def _ob(x):
+    return 'none' if x is None else 'some ' + _b(x)
 
 
 def render(f):
@@ -127,4 +189,14 @@ def render(f):
         f'def singleZeroUnlimited : Bool := {_b(f["single_zero_unlimited"])}\n'
         '/-- replaced batch entries are error responses carrying their own ids, in order -/\n'
         f'def batchReplacedKeepsIds : Bool := {_b(f["batch_replaced_keeps_ids"])}\n'
+        '/-- `[invalid, request]` with a limit of exactly the response + increment: the result is\n'
+        '    replaced, i.e. the error entry of the invalid member counts towards the running size\n'
+        '    (`none`: the probe could not run) -/\n'
+        f'def invalidMembersAccounted : Option Bool := {_ob(f.get("invalid_members_accounted"))}\n'
+        '/-- `[request 100 bytes over, request that would fit on its own]`: both are replaced -/\n'
+        f'def overflowSticky : Option Bool := {_ob(f.get("overflow_sticky"))}\n'
+        '/-- `receive_message` on `[a, b]`: (a looks like a response, b looks like a response,\n'
+        '    handled as a request batch) -/\n'
+        'def dispatchTable : List (Bool × Bool × Bool) := ['
+        + ', '.join(f'({_b(a)}, {_b(b)}, {_b(r)})' for a, b, r in f.get('dispatch_table', [])) + ']\n'
         'end Aiorpcx.Facts.C02\n')
